@@ -102,6 +102,20 @@ fn refd(tok: &[u8], handed: &[PlainRef]) -> Option<PlainRef> {
     Some(PlainRef { id: it.next()?.parse().ok()?, gen: it.next()?.parse().ok()? })
 }
 
+/// a value whose ObjectWrite::to_primitive itself creates an object through the Updater it is handed (like PageRc::create with
+/// direct contents/resources): the child is created first, the parent is `<< /Child c 0 R >>`; the child's reference is recorded
+struct Nested { child: Primitive, child_ref: std::sync::Mutex<Option<PlainRef>> }
+impl ObjectWrite for Nested {
+    fn to_primitive(&self, update: &mut impl Updater) -> pdf::error::Result<Primitive> {
+        let c = update.create(self.child.clone())?;
+        let r = c.get_ref().get_inner();
+        *self.child_ref.lock().unwrap() = Some(r);
+        let mut d = Dictionary::new();
+        d.insert("Child", Primitive::Reference(r));
+        Ok(Primitive::Dictionary(d))
+    }
+}
+
 fn listing<OC, SC, L>(bytes: Vec<u8>, mk: &dyn Fn() -> (OC, SC, L), out: &mut Vec<Vec<u8>>)
 where OC: Cache<pdf::error::Result<AnySync, Arc<PdfError>>>, SC: Cache<pdf::error::Result<Arc<[u8]>, Arc<PdfError>>>, L: Log
 {
@@ -137,7 +151,7 @@ where OC: Cache<pdf::error::Result<AnySync, Arc<PdfError>>>, SC: Cache<pdf::erro
     let mut prev_bytes = base;
     for line in fld(f, 2).split(|&c| c == b'\n') {
         if line.is_empty() { continue; }
-        let toks: Vec<&[u8]> = if line.first() == Some(&b'C') { line.splitn(2, |&c| c == b' ').collect() } else { line.splitn(3, |&c| c == b' ').collect() };
+        let toks: Vec<&[u8]> = if line.first() == Some(&b'C') || line.first() == Some(&b'N') { line.splitn(2, |&c| c == b' ').collect() } else { line.splitn(3, |&c| c == b' ').collect() };
         // value designator: canon text, or `@ref` = whatever resolving ref yields now (may be an in-file stream)
         let val = |t: &[u8], st: &Storage<Vec<u8>, OC, SC, L>, handed: &[PlainRef]| -> std::result::Result<Primitive, String> {
             if t.first() == Some(&b'@') {
@@ -151,6 +165,19 @@ where OC: Cache<pdf::error::Result<AnySync, Arc<PdfError>>>, SC: Cache<pdf::erro
             b"C" => {
                 let v = val(toks[1], &st, &handed)?;
                 match st.create(v) { Ok(rc) => { let r = rc.get_ref().get_inner(); handed.push(r); out.push(rtext(r)); } Err(e) => out.push(etext(&e)) }
+            }
+            b"N" => {
+                // create of a value whose conversion creates a child: two references are handed out, parent then child
+                let v = val(toks[1], &st, &handed)?;
+                match st.create(Nested { child: v, child_ref: std::sync::Mutex::new(None) }) {
+                    Ok(rc) => {
+                        let r = rc.get_ref().get_inner();
+                        let c = rc.child_ref.lock().unwrap().ok_or("nochild")?;
+                        handed.push(r); handed.push(c);
+                        out.push(rtext(r)); out.push(rtext(c));
+                    }
+                    Err(e) => out.push(etext(&e)),
+                }
             }
             b"U" => {
                 let r = refd(toks[1], &handed).ok_or("badref")?;
@@ -208,6 +235,8 @@ where OC: Cache<pdf::error::Result<AnySync, Arc<PdfError>>>, SC: Cache<pdf::erro
 
 trait Doc {
     fn create_p(&mut self, v: Primitive) -> pdf::error::Result<PlainRef>;
+    /// create(Nested { child: v }): (parent, child)
+    fn create_n(&mut self, v: Primitive) -> pdf::error::Result<(PlainRef, PlainRef)>;
     fn update_p(&mut self, r: PlainRef, v: Primitive) -> pdf::error::Result<PlainRef>;
     fn promise_p(&mut self) -> PromisedRef<Primitive>;
     fn fulfill_p(&mut self, p: PromisedRef<Primitive>, v: Primitive) -> pdf::error::Result<PlainRef>;
@@ -220,6 +249,11 @@ impl<OC, SC, L> Doc for Twin<OC, SC, L>
 where OC: Cache<pdf::error::Result<AnySync, Arc<PdfError>>>, SC: Cache<pdf::error::Result<Arc<[u8]>, Arc<PdfError>>>, L: Log
 {
     fn create_p(&mut self, v: Primitive) -> pdf::error::Result<PlainRef> { self.st.create(v).map(|rc| rc.get_ref().get_inner()) }
+    fn create_n(&mut self, v: Primitive) -> pdf::error::Result<(PlainRef, PlainRef)> {
+        let rc = self.st.create(Nested { child: v, child_ref: std::sync::Mutex::new(None) })?;
+        let c = rc.child_ref.lock().unwrap().expect("child");
+        Ok((rc.get_ref().get_inner(), c))
+    }
     fn update_p(&mut self, r: PlainRef, v: Primitive) -> pdf::error::Result<PlainRef> { self.st.update(r, v).map(|rc| rc.get_ref().get_inner()) }
     fn promise_p(&mut self) -> PromisedRef<Primitive> { self.st.promise::<Primitive>() }
     fn fulfill_p(&mut self, p: PromisedRef<Primitive>, v: Primitive) -> pdf::error::Result<PlainRef> { self.st.fulfill(p, v).map(|rc| rc.get_ref().get_inner()) }
@@ -233,6 +267,11 @@ impl<OC, SC, L> Doc for OnDisk<OC, SC, L>
 where OC: Cache<pdf::error::Result<AnySync, Arc<PdfError>>>, SC: Cache<pdf::error::Result<Arc<[u8]>, Arc<PdfError>>>, L: Log
 {
     fn create_p(&mut self, v: Primitive) -> pdf::error::Result<PlainRef> { self.file.create(v).map(|rc| rc.get_ref().get_inner()) }
+    fn create_n(&mut self, v: Primitive) -> pdf::error::Result<(PlainRef, PlainRef)> {
+        let rc = self.file.create(Nested { child: v, child_ref: std::sync::Mutex::new(None) })?;
+        let c = rc.child_ref.lock().unwrap().expect("child");
+        Ok((rc.get_ref().get_inner(), c))
+    }
     fn update_p(&mut self, r: PlainRef, v: Primitive) -> pdf::error::Result<PlainRef> { self.file.update(r, v).map(|rc| rc.get_ref().get_inner()) }
     fn promise_p(&mut self) -> PromisedRef<Primitive> { self.file.promise::<Primitive>() }
     fn fulfill_p(&mut self, p: PromisedRef<Primitive>, v: Primitive) -> pdf::error::Result<PlainRef> { self.file.fulfill(p, v).map(|rc| rc.get_ref().get_inner()) }
@@ -249,7 +288,7 @@ fn run_doc<D: Doc>(d: &mut D, ops: &[u8]) -> std::result::Result<Vec<(Vec<u8>, O
     let mut saves = vec![];
     for line in ops.split(|&c| c == b'\n') {
         if line.is_empty() { continue; }
-        let toks: Vec<&[u8]> = if line.first() == Some(&b'C') { line.splitn(2, |&c| c == b' ').collect() } else { line.splitn(3, |&c| c == b' ').collect() };
+        let toks: Vec<&[u8]> = if line.first() == Some(&b'C') || line.first() == Some(&b'N') { line.splitn(2, |&c| c == b' ').collect() } else { line.splitn(3, |&c| c == b' ').collect() };
         let val = |t: &[u8], d: &D, handed: &[PlainRef]| -> std::result::Result<Primitive, String> {
             if t.first() == Some(&b'@') { d.resolve_p(refd(&t[1..], handed).ok_or("badref")?).map_err(|e| ekind(&e)) }
             else { uncanon(t).ok_or_else(|| "badvalue".to_string()) }
@@ -257,6 +296,7 @@ fn run_doc<D: Doc>(d: &mut D, ops: &[u8]) -> std::result::Result<Vec<(Vec<u8>, O
         // a failed write hands out nothing (as in storage_history)
         match toks[0] {
             b"C" => { let v = val(toks[1], d, &handed)?; if let Ok(r) = d.create_p(v) { handed.push(r); } }
+            b"N" => { let v = val(toks[1], d, &handed)?; if let Ok((r, c)) = d.create_n(v) { handed.push(r); handed.push(c); } }
             b"U" => { let r = refd(toks[1], &handed).ok_or("badref")?; let v = val(toks[2], d, &handed)?; if let Ok(r) = d.update_p(r, v) { handed.push(r); } }
             b"P" => { let p = d.promise_p(); let r = p.get_inner(); handed.push(r); promises.push((r, Some(p))); }
             b"F" => {
@@ -440,7 +480,7 @@ pub fn dispatch(mode: &str, f: &[Vec<u8>]) -> Option<R> {
             let td = match st.load_storage_and_trailer() { Ok(t) => t, Err(e) => return Some(Err(ekind(&e))) };
             let mut trailer = match Trailer::from_primitive(Primitive::Dictionary(td), &st.resolver()) { Ok(t) => t, Err(e) => return Some(Err(ekind(&e))) };
             for line in fld(f, 2).split(|&c| c == b'\n') {
-                let toks: Vec<&[u8]> = if line.first() == Some(&b'C') { line.splitn(2, |&c| c == b' ').collect() } else { line.splitn(3, |&c| c == b' ').collect() };
+                let toks: Vec<&[u8]> = if line.first() == Some(&b'C') || line.first() == Some(&b'N') { line.splitn(2, |&c| c == b' ').collect() } else { line.splitn(3, |&c| c == b' ').collect() };
                 match toks[0] {
                     b"C" => { let _ = st.create(uncanon(toks[1])?); }
                     b"U" => { let _ = st.update(refd(toks[1], &[])?, uncanon(toks[2])?); }
